@@ -63,7 +63,7 @@ Exact(r) ==
       [] r.ev = "ValidateAll" /\ r.ok = 1 /\ ~Stopped(r.e) -> SeqToSet(r.set) \cap txt = ExactMask(c, st)
       [] r.ev = "ConsumeEach" -> \A t \in SeqToSet(r.tried) \cap txt : (t \in SeqToSet(r.okset)) = Allowed(c, st, t)
       [] r.ev = "Acc" /\ r.ok = 1 /\ ~Stopped(r.e) -> (r.v = 1) = IsAcc(st)
-      [] r.ev = "Consume" /\ ~Stopped(r.e) /\ r.t < s.n /\ (r.t \in txt) -> (r.ok = 1) = Allowed(c, st, r.t)
+      [] r.ev = "Consume" /\ ~Stopped(r.e) /\ r.t < s.n /\ (r.t \in txt) /\ ~(r.ok = 0 /\ r.cls = "limit") -> (r.ok = 1) = Allowed(c, st, r.t)
       [] OTHER -> TRUE
 
 Explain(r) ==
